@@ -112,7 +112,25 @@ def failing_value(fmt: str):
     return {"a": Boom()}
 
 
+def name_oracle(case: dict):
+    """create_target_file_name against the documented derivation: same directory, scope suffix, prefix once, extension"""
+    dictIO = native.dictio()
+    name, prefix, scope, output = case["name"], case["prefix"], case["scope"], case["output"]
+    r = dictIO.create_target_file_name(Path("/some/dir") / name, prefix=prefix, scope=scope or None, output=output)
+    if r.parent != Path("/some/dir"):
+        return ("name-dir", f"create_target_file_name({name!r}, scope={scope!r}) left the source directory: {r}")
+    exp_name = spec_target_name(name, prefix, scope, output)
+    if r.name != exp_name:
+        return ("name-wrong", f"create_target_file_name({name!r}, prefix={prefix!r}, scope={scope!r}, output={output!r}) = {r.name!r}, expected {exp_name!r}")
+    r2 = dictIO.create_target_file_name(r, prefix=prefix, scope=None, output=None)
+    if prefix == "parsed" and not scope and r2 != r and not output:
+        return ("name-prefix-twice", f"prefix applied twice: {r.name} -> {r2.name}")
+    return None
+
+
 def oracle(case: dict):
+    if case.get("op") == "name":
+        return name_oracle(case)
     dictIO = native.dictio()
     rng_seed = case["seed"]
     import random
@@ -274,7 +292,8 @@ def spec_target_name(name, prefix, scope, output) -> str:
     else:
         base, ending = stem, suffix
     if scope:
-        base += "_" + "_".join(str(k) for k in scope)
+        # the suffix names the keys; a path separator inside a key cannot be part of a file NAME (it is spelled '_')
+        base += "_" + "_".join(str(k).replace("/", "_").replace("\\", "_") for k in scope)
     if prefix:
         pre = prefix[:-1] if prefix.endswith(".") else prefix
         if base.startswith(pre + "."):
@@ -292,7 +311,7 @@ def name_cases(rng, n):
     for _ in range(n):
         name = rng.choice(stems) + rng.choice(["", "", ".foam", ".json", ".xml", ".dict"])
         prefix = rng.choice([None, "parsed", "parsed.", "", "out", "foo"])
-        scope = rng.choice([[], ["a"], ["a", "b"], [1, "x"], ["a b"]])
+        scope = rng.choice([[], ["a"], ["a", "b"], [1, "x"], ["a b"], ["a/b"], ["a/b", "c"], ["x\\y", 2], ["../up"]])
         output = rng.choice([None, "", "cpp", "foam", "json", "xml", "yaml"])
         out.append((name, prefix, scope, output))
     return out
@@ -386,15 +405,10 @@ def run(ctx):
         c = {"op": "name", "name": name, "prefix": prefix, "scope": scope, "output": output}
         try:
             r = dictIO.create_target_file_name(Path("/some/dir") / name, prefix=prefix, scope=scope or None, output=output)
-            il = wire.enc_str(r.name)
-            if r.parent != Path("/some/dir"):
-                ctx.oracle_fail(c, "name-dir", f"create_target_file_name left the source directory: {r}")
-            exp_name = spec_target_name(name, prefix, scope, output)
-            if r.name != exp_name:
-                ctx.oracle_fail(c, "name-wrong", f"create_target_file_name({name!r}, prefix={prefix!r}, scope={scope!r}, output={output!r}) = {r.name!r}, expected {exp_name!r}")
-            r2 = dictIO.create_target_file_name(r, prefix=prefix, scope=None, output=None)
-            if prefix == "parsed" and not scope and r2 != r and not output:
-                ctx.oracle_fail(c, "name-prefix-twice", f"prefix applied twice: {r.name} -> {r2.name}")
+            il = wire.enc_str(str(r.relative_to("/some/dir")))
+            v = name_oracle(c)
+            if v:
+                ctx.oracle_fail(c, v[0], v[1])
         except Exception as e:  # noqa: BLE001
             il = "raise " + type(e).__name__
         ctx.corr_compared += 1
